@@ -235,7 +235,16 @@ func writeJSONServerState(stateDir string, js *jsonServerState) error {
 	if encoded, err = json.Marshal(js); err != nil {
 		return err
 	}
-	return os.WriteFile(path.Join(stateDir, stateFile), encoded, 0o600)
+
+	// The state file holds the only copy of the bridge's identity.  Write the
+	// new contents to a temporary file and rename it into place, so that
+	// being killed while the state is being written can not leave a truncated
+	// (or empty) state file behind.
+	tmpPath := path.Join(stateDir, stateFile+".tmp")
+	if err = os.WriteFile(tmpPath, encoded, 0o600); err != nil {
+		return err
+	}
+	return os.Rename(tmpPath, path.Join(stateDir, stateFile))
 }
 
 func newBridgeFile(stateDir string, st *obfs4ServerState) error {
